@@ -156,7 +156,8 @@ struct Flow : Prop {
 	struct Trigger { std::vector<size_t> held; std::string why; };
 	std::vector<Trigger> triggers;
 	std::map<uint64_t, std::vector<bool>> live_changed;      // frame id -> per message: did the lenient-high model free capacity
-	std::map<uint32_t, std::vector<std::pair<uint8_t, uint64_t>>> credits;   // delivered messages not yet attributed to a request
+	struct Credit { uint8_t first; uint64_t second; uint64_t frame; };
+	std::map<uint32_t, std::vector<Credit>> credits;   // delivered messages not yet attributed to a request
 
 	void ingest_starts(Engine &e) {
 		for (; starts_seen < e.starts.size(); starts_seen++) {
@@ -225,7 +226,12 @@ struct Flow : Prop {
 				auto &cr = credits[s.node];
 				const auto &acc = pc::resp_info(s.exp.type).answers;
 				for (size_t i = 0; i < cr.size(); i++) {
-					if (cr[i].second > st.inv_step && std::find(acc.begin(), acc.end(), cr[i].first) != acc.end()) { cr.erase(cr.begin() + (long) i); pre_answered = true; break; }
+					// the library attributes an uplink message to the requests it finds queued at the moment it PROCESSES the message: any time
+					// between its delivery and the receiver's next poll (the receiver thread may be descheduled in between). A request whose call
+					// was invoked before the message is known to be processed may therefore be freed by it.
+					bool may_match = cr[i].second > st.inv_step;
+					if (!may_match) for (auto &fr : e.bus.done) if (fr.id == cr[i].frame && (!fr.processed || fr.processed_step > st.inv_step)) may_match = true;
+					if (may_match && std::find(acc.begin(), acc.end(), cr[i].first) != acc.end()) { cr.erase(cr.begin() + (long) i); pre_answered = true; break; }
 				}
 				if (!pre_answered) sq.push_back(Out{si, s.size, s.exp.type, st.inv_time_s, now_s});
 				live_q[s.node].push_back(Out{si, s.size, s.exp.type, st.inv_time_s, now_s});
@@ -267,7 +273,7 @@ struct Flow : Prop {
 					const auto &acc = pc::resp_info(sq[i].type).answers;
 					if (std::find(acc.begin(), acc.end(), m.type) != acc.end()) { sq.erase(sq.begin() + (long) i); used = true; break; }
 				}
-				if (!used) credits[nk].push_back({m.type, f.last_read_step});
+				if (!used) credits[nk].push_back({m.type, f.last_read_step, f.id});
 				if (m.type == MSG_STALL && !m.data.empty()) {
 					if (m.data[0]) { StallWin w; w.node = nk; w.depth = depth_of(nk); w.t1_first = f.first_read_step; wins.push_back(w); f.tag |= 0x1000; }
 					else for (auto &w : wins) if (w.node == nk && !w.t0_first) w.t0_first = f.first_read_step;
